@@ -50,6 +50,16 @@ CLAIMED.update({
         "note": "Scope: the pure authorization decision, its matching helpers, the attenuation lattice and the command->permission gate tables. redact::apply (field mask) did not finish and is not under contract.",
         "technique": TECH_K,
     },
+    "C13": {
+        "text": "Kani contract harnesses on the real FieldType::validate_inner / normalize / extract of anda_db_schema against a specification written independently of the match arms (spec_member: declared variant or a documented read-back alias; I64<-U64 = sign bit clear; F32<-F64 = exact f32 representability by bit pattern). Leaves (complete over the full u64/i64/f64/f32 payload domain, every (declared scalar type x value variant) cell, plain and under Option): nothing invalid is accepted, what is documented is accepted, NaN never, Null only under Option; after normalize an accepted value is in the declared variant, validates again and denotes the same number, a rejected value is left unchanged; extract from CBOR scalars yields a value that validates, in the declared variant, with the same value. Fixed composite shapes (bounded: nesting <= 3, <= 2 elements): Option<Array[I64]>, tuple arity, heterogeneous Array[], nested Option, Vector <-> Array[U64 <= 0xFFFF], Null in a required slot. Partial: the CBOR byte codec, serde visitors, derive macros, Document entry points, the complexity budget and schema upgrade are not under contract.",
+        "note": "Scope: type-directed acceptance and read-back normalisation at scalar leaves and fixed composite shapes.",
+        "technique": TECH_K,
+    },
+    "C16": {
+        "text": "Kani contract harnesses on the real anda_kip validators: is_protected_field <=> the name is byte-exactly one of the four engine-owned names (every ASCII name <= 12 bytes); guard_immutable_field / guard_structural_mutation against a table re-spelled from the specification (6 bound kinds x 21 names, complete), applied by validate_clause and down to depth 2 of the WHERE binding; validate_exact_patterns rejects BELIEF / BeliefSlot at top level and inside NOT / OPTIONAL / UNION (depth <= 2) for all seven clause families that carry a WHERE; validate_clause Ok => an independent walker finds no engine-owned key in any SET / UNSET block (symbolic ASCII key <= 10 bytes, 12 clause-family x block cells); PURGE needs confirm == \"PURGE\" (every ASCII string <= 6 bytes); validate_plan checks every clause, rejects the empty plan and unbound handles. Partial: the text parser (nom), ASSERT desugaring, UPSERT CONCEPT, validate_command and the duplicate-handle rule are not under contract.",
+        "note": "Scope: guard predicates and the tree validator on a finite clause x block x key matrix.",
+        "technique": TECH_K,
+    },
     "C14": {
         "text": "Kani contract harnesses on the real auth::authorize with ApiKeyHash::verify replaced by an uninterpreted relation (the table holds for EVERY relation): Ok(Admin) iff no admin key configured or the presented key verifies against it; Ok(Database) only at Database scope with a bound key that verifies — never at Root; every rejection is the one fixed 401/unauthorized answer and is identical whether the database is unbound, bound to another key or nonexistent (relational, two calls). RootMethod::parse / DbMethod::parse: every documented method name resolves to its selector in its scope only; Read is claimed only for pure queries (frozen table written from the documentation); every other ASCII name up to 28 bytes resolves to nothing (bounded). Partial: handlers and middleware are async and not under contract.",
         "note": "Scope: authorization decision and method/effect table.",
@@ -68,6 +78,4 @@ NOT_APPLICABLE = {
     "C15": "nom combinator parsers unreachable for both verifiers; the only callable function validate_parser_budget exhausted 33 GB at 6 symbolic characters (DESIGN §3 C15)",
     "C17": "all-or-nothing is a frame condition over ten async collections; no synchronous kernel states any clause (DESIGN §3 C17)",
     # planned, not yet built in this commit (moved to CLAIMED when their check passes)
-    "C13": "planned (DESIGN §3 C13) — contracts not built yet in this commit",
-    "C16": "planned (DESIGN §3 C16) — contracts not built yet in this commit",
 }
